@@ -81,7 +81,7 @@ func (m *ModelServer) ListHails(_ context.Context, request *traits.ListHailsRequ
 	}
 	pageSize := capPageSize(int(request.GetPageSize()))
 
-	sortedItems := m.model.ListHails(resource.WithReadMask(request.ReadMask))
+	sortedItems := m.model.ListHails() // unmasked: paging goes by the items' keys, which a read mask may leave out
 	nextIndex := 0
 	if lastKey != "" {
 		nextIndex = sort.Search(len(sortedItems), func(i int) bool {
@@ -107,7 +107,10 @@ func (m *ModelServer) ListHails(_ context.Context, request *traits.ListHailsRequ
 	if err != nil {
 		return nil, err
 	}
-	result.Hails = sortedItems[nextIndex:upperBound]
+	readConfig := resource.ComputeReadConfig(resource.WithReadMask(request.ReadMask))
+	for _, item := range sortedItems[nextIndex:upperBound] {
+		result.Hails = append(result.Hails, readConfig.FilterClone(item).(*traits.Hail))
+	}
 	return result, nil
 }
 
